@@ -68,6 +68,7 @@ broadcast use {axiom_string_eq_spec, axiom_string_obeys_eq, axiom_to_string_stri
 //%include router_assert.rs
 //%include router_ops.rs
 //%include router_contract.rs
+//%include router_entry.rs
 }
 } // verus!
 fn main() {}
